@@ -453,6 +453,46 @@ def _brief(o):
     return s if len(s) < 400 else s[:400] + "..."
 
 
+def unit_nested_copies(unit):
+    """copy.deepcopy and a pickle round trip promise full independence also for a vector whose cells are vectors: a write through a
+    cell of the copy is not seen through the original, and the other way round"""
+    import copy, pickle
+    from serif import Vector
+    agg = Agg()
+    for label, fn in (("copy.deepcopy", copy.deepcopy), ("pickle round trip", lambda o: pickle.loads(pickle.dumps(o)))):
+        for direction in ("write-through-the-copy", "write-through-the-original"):
+            for wkind in ("cell", "promote", "name", "none"):
+                agg.evals += 1; agg.transitions += 2; agg.states += 1; agg.nontrivial += 1; agg.compared += 1
+                a, b = Vector([1, 2], name="a"), Vector([3, 4, 5], name="b")
+                o = Vector([a, b])
+                case = {"operand": "vector of two vectors", "derivation": label, "then": direction, "write": wkind}
+                try:
+                    c = fn(o)
+                except Exception:
+                    agg.outcomes["pure-raises"] += 1
+                    continue
+                src, dst = (c, o) if direction == "write-through-the-copy" else (o, c)
+                before = observe(dst)
+                try:
+                    inner = src._underlying[0]
+                    if wkind == "cell":
+                        inner[0] = 99
+                    elif wkind == "promote":
+                        inner[1] = 2.5
+                    elif wkind == "name":
+                        inner.name = "renamed"
+                    else:
+                        inner[0] = None
+                except Exception:
+                    agg.skipped["write-refused"] += 1
+                    continue
+                if observe(dst) != before:
+                    agg.violation(V("deepcopy.nested", "write-seen-through-the-other-object", case, _brief(before), _brief(observe(dst))))
+                else:
+                    agg.outcomes["result-write-stays-local"] += 1
+    return agg
+
+
 def plan(level_full_kinds, all_kinds=None):
     units = []
     for kind in (all_kinds or KINDS):
